@@ -4,6 +4,7 @@ package c03
 
 import (
 	"fmt"
+	"time"
 
 	"cedarverif/internal/core"
 	"cedarverif/internal/evilreplay"
@@ -43,7 +44,9 @@ func run(c *core.Ctx) {
 			c.Sample(map[string]any{"cfg": g.Cfg, "devs": g.Devs, "allowed_terminal_states": len(g.Allowed)})
 		}
 	}
+	t0 := time.Now()
 	st := evilreplay.ReplayAll(c, groups)
+	c.Set("replay_wall_s", time.Since(t0).Seconds())
 	c.Set("scenarios", st.Groups)
 	c.Set("scenarios_executed", st.Executed)
 	c.Set("handshakes_succeeded", st.Success)
